@@ -68,9 +68,9 @@ def vectors(ctx):
                     xs.append(("special", up))
                 if abs(dn) <= 90:
                     xs.append(("special", dn))
-    for _ in range(ctx.pick(20000, 400000)):
+    for _ in range(ctx.pick(20000, 1500000)):
         xs.append(("rand", rng.uniform(-90, 90)))
-    for _ in range(ctx.pick(3000, 60000)):
+    for _ in range(ctx.pick(3000, 300000)):
         xs.append(("rand87", rng.choice([1, -1]) * rng.uniform(86.99, 87.01)))
     V = []
     for tag, x in xs:
